@@ -456,6 +456,7 @@ Proof.
     apply (Permutation_trans (l' := [1; 2; 3])); [apply perm_swap|]. apply Permutation_refl.
   - change (Permutation [3; 2; 1; 0] [0; 1; 2; 3]).
     apply Permutation_sym. change [3; 2; 1; 0] with (rev [0; 1; 2; 3]). apply Permutation_rev.
+Qed.
 
 (* ---- the grid state components: the complete reset of a smart simulation -------------------------
    Grid/FullReset.v: SmartGridWorldSimulation.reset = PositionState (the placement model of C13),
